@@ -217,6 +217,9 @@ func getTun() (*tunEnv, error) {
 					return
 				}
 				o.CA, o.RootCAs, o.ListenerTLS = e.ca, e.ca.Pool, tlsl
+				if c03ShortTimeouts {
+					o.ReadHeaderTimeout, o.IdleTimeout = 700*time.Millisecond, 900*time.Millisecond
+				}
 				p, err := StartProxy(o)
 				if err != nil {
 					tunErr = fmt.Errorf("proxy %s: %w", name, err)
@@ -806,6 +809,20 @@ func genC03Aged(t *rapid.T) C03Case {
 	shrink(&c.Target)
 	c.TargetReadDelayMs = 0
 	c.AgedMs = int(c03Grace/time.Millisecond) + 300
+	// tunnels that began as a request of their own (Upgrade) are as common here as all CONNECT routes together, and both
+	// sides have something to say once the tunnel has aged
+	if rapid.Bool().Draw(t, "agedupgrade") {
+		c.Route, c.Stream, c.UpEarly = "upgrade", "", 0
+		if !c.TLSList {
+			c.TLS12 = false
+		}
+	}
+	if len(c.Client.Writes) == 0 {
+		c.Client.Writes, c.Client.Gates = []int{100}, []int{0}
+	}
+	if len(c.Target.Writes) == 0 {
+		c.Target.Writes, c.Target.Gates = []int{100}, []int{0}
+	}
 	return c
 }
 
@@ -816,7 +833,12 @@ func classifyC03Aged(c C03Case) (bool, string, []string) {
 
 var propC03Aged = vstat.Prop[C03Case]{Name: "TestC03Aged", Gen: genC03Aged, Run: runC03, Classify: classifyC03Aged}
 
+// c03ShortTimeouts: the proxies of this process are built with a read-header and an idle time-out shorter than the age
+// the tunnels of TestC03Aged reach: the limits of the request phase say nothing about a tunnel that is up.
+var c03ShortTimeouts bool
+
 func TestC03Aged(t *testing.T) {
+	c03ShortTimeouts = true
 	old := martian.VerifSetTunnelGrace(c03Grace)
 	defer martian.VerifSetTunnelGrace(old)
 	propC03Aged.Check(t, st)
